@@ -122,7 +122,7 @@ def body(case, ctx, requests=None):
 
 
 def shards(tier, seed):
-    n = 125 if tier == 'quick' else 3750
+    n = 125 if tier == 'quick' else 9000
     return [{'n': n} for _ in range(16)]
 
 
